@@ -1,7 +1,7 @@
 (* C56 — lemmas: slice helpers, the sink, write_all, hash::Write, compute_hash / compute_stream_hash. *)
 From Coq Require Import List NArith Bool Lia ZArith ZifyBool ZifyNat ZifyN.
 From GixV.Base Require Import Bytes BytesFacts Outcome.
-From GixV.C56 Require Import Model.
+From GixV.C56 Require Import Model Spec.
 Import ListNotations.
 Local Open Scope N_scope.
 
@@ -23,8 +23,6 @@ Qed.
 Lemma split_at_spec n l : split_at n l = (firstn (N.to_nat n) l, skipn (N.to_nat n) l).
 Proof. unfold split_at. rewrite take_rev_spec, rev'_rev, app_nil_r, rev_involutive. reflexivity. Qed.
 
-Definition takeN (n : N) (l : bytes) : bytes := firstn (N.to_nat n) l.
-Definition dropN (n : N) (l : bytes) : bytes := skipn (N.to_nat n) l.
 Lemma split_at_fst n l : fst (split_at n l) = takeN n l.
 Proof. rewrite split_at_spec. reflexivity. Qed.
 Lemma split_at_snd n l : snd (split_at n l) = dropN n l.
@@ -91,6 +89,21 @@ Proof.
 Qed.
 
 (* ---------------------------------------------------------------- write_all, generically *)
+Lemma write_all_fuel_S {W} (wr : W -> bytes -> outcome (W * N) err) f w buf : buf <> [] ->
+  write_all_fuel wr (S f) w buf =
+  match wr w buf with
+  | Ok (w', n) => if n =? 0 then Err EWriteZero else if lenN buf <? n then Panic
+                  else write_all_fuel wr f w' (snd (split_at n buf))
+  | Err e => Err e | Panic => Panic | OutOfFuel => OutOfFuel
+  end.
+Proof. destruct buf; [congruence|reflexivity]. Qed.
+Lemma write_all_fuel_nil {W} (wr : W -> bytes -> outcome (W * N) err) f w : write_all_fuel wr f w [] = Ok w.
+Proof. destruct f; reflexivity. Qed.
+Lemma length_pos_ne (buf : bytes) : buf <> [] -> (0 < length buf)%nat.
+Proof. destruct buf; [congruence|cbn; lia]. Qed.
+Lemma nil_or_not (buf : bytes) : buf = [] \/ buf <> [].
+Proof. destruct buf; [left; reflexivity|right; discriminate]. Qed.
+
 Section WriteAllFacts.
   Context {W : Type}.
   Variable wr : W -> bytes -> outcome (W * N) err.
@@ -104,16 +117,15 @@ Section WriteAllFacts.
   Proof.
     induction fuel as [|f IH]; intros w a buf w' Hf HI H.
     - destruct buf; [|cbn in Hf; lia]. cbn in H. apply Ok_inj in H. subst. rewrite app_nil_r. exact HI.
-    - destruct buf as [|x r] eqn:Eb.
+    - destruct (nil_or_not buf) as [->|Hne].
       { cbn in H. apply Ok_inj in H. subst. rewrite app_nil_r. exact HI. }
-      rewrite <- Eb in *. assert (Hne : buf <> []) by (subst; discriminate).
-      cbn [write_all_fuel] in H. rewrite Eb in H at 1. rewrite <- Eb in H.
+      rewrite write_all_fuel_S in H by exact Hne. pose proof (length_pos_ne _ Hne) as Hpos.
       destruct (wr w buf) as [[w1 n]| | |] eqn:Ew; try discriminate.
       destruct (n =? 0) eqn:En; [discriminate|].
       destruct (lenN buf <? n) eqn:El; [discriminate|].
       destruct (wr_step _ _ _ _ _ HI Ew) as [Hn HI1].
       rewrite split_at_snd in H.
-      apply (IH _ _ _ _) with (a := a ++ takeN n buf) in H.
+      apply (IH w1 (a ++ takeN n buf)) in H.
       + rewrite <- app_assoc, take_drop in H. exact H.
       + rewrite dropN_length by lia. lia.
       + exact HI1.
@@ -122,26 +134,50 @@ Section WriteAllFacts.
   Lemma write_all_ok w a buf w' : I w a -> write_all wr w buf = Ok w' -> I w' (a ++ buf).
   Proof. intros HI H. apply (write_all_fuel_ok (length buf) w a buf w'); auto. Qed.
 
-  (* totality: no Panic, no OutOfFuel, provided the writer itself is total on reachable states *)
-  Hypothesis wr_total : forall w a buf, I w a -> wr w buf <> Panic /\ wr w buf <> OutOfFuel.
+  Lemma write_all_list_ok ws : forall w a w', I w a ->
+    write_all_list wr w ws = Ok w' -> I w' (a ++ concat ws).
+  Proof.
+    induction ws as [|b r IH]; intros w a w' HI H; cbn [write_all_list concat] in *.
+    - apply Ok_inj in H. subst. rewrite app_nil_r. exact HI.
+    - destruct (write_all wr w b) as [w1| | |] eqn:E; try discriminate.
+      rewrite app_assoc. eapply IH; [|exact H]. eapply write_all_ok; eauto.
+  Qed.
+
+  (* totality: no Panic, no OutOfFuel, provided the writer itself is total as long as the bytes
+     accepted so far plus the bytes offered stay within a budget B *)
+  Variable B : nat.
+  Hypothesis wr_total : forall w a buf, I w a -> (length a + length buf <= B)%nat ->
+    wr w buf <> Panic /\ wr w buf <> OutOfFuel.
   Lemma write_all_fuel_total fuel : forall w a buf, (length buf <= fuel)%nat -> I w a ->
+    (length a + length buf <= B)%nat ->
     write_all_fuel wr fuel w buf <> Panic /\ write_all_fuel wr fuel w buf <> OutOfFuel.
   Proof.
-    induction fuel as [|f IH]; intros w a buf Hf HI.
+    induction fuel as [|f IH]; intros w a buf Hf HI HB.
     - destruct buf; [|cbn in Hf; lia]. cbn. split; discriminate.
-    - destruct buf as [|x r] eqn:Eb; [cbn; split; discriminate|].
-      rewrite <- Eb in *. cbn [write_all_fuel]. rewrite Eb at 1. rewrite Eb at 2. rewrite <- Eb.
-      destruct (wr_total w a buf HI) as [Hp Ho].
+    - destruct (nil_or_not buf) as [->|Hne]; [cbn; split; discriminate|].
+      rewrite write_all_fuel_S by exact Hne. pose proof (length_pos_ne _ Hne) as Hpos.
+      destruct (wr_total w a buf HI HB) as [Hp Ho].
       destruct (wr w buf) as [[w1 n]| | |] eqn:Ew; try (split; discriminate); try congruence.
       destruct (n =? 0) eqn:En; [split; discriminate|].
       destruct (wr_step _ _ _ _ _ HI Ew) as [Hn HI1].
       destruct (lenN buf <? n) eqn:El; [lia|].
-      rewrite split_at_snd. apply (IH _ (a ++ takeN n buf)); [|exact HI1].
-      rewrite dropN_length by lia. subst buf. cbn [length] in *. lia.
+      rewrite split_at_snd. apply (IH _ (a ++ takeN n buf)); [|exact HI1|].
+      + rewrite dropN_length by lia. lia.
+      + rewrite app_length, takeN_length, dropN_length by lia. rewrite lenN_spec in Hn. lia.
   Qed.
-  Lemma write_all_total w a buf : I w a ->
+  Lemma write_all_total w a buf : I w a -> (length a + length buf <= B)%nat ->
     write_all wr w buf <> Panic /\ write_all wr w buf <> OutOfFuel.
-  Proof. intros HI. apply (write_all_fuel_total (length buf) w a buf); auto. Qed.
+  Proof. intros HI HB. apply (write_all_fuel_total (length buf) w a buf); auto. Qed.
+
+  Lemma write_all_list_total ws : forall w a, I w a -> (length a + length (concat ws) <= B)%nat ->
+    write_all_list wr w ws <> Panic /\ write_all_list wr w ws <> OutOfFuel.
+  Proof.
+    induction ws as [|b r IH]; intros w a HI HB; cbn [write_all_list concat] in *; [split; discriminate|].
+    rewrite app_length in HB.
+    destruct (write_all_total w a b HI ltac:(lia)) as [Hp Ho].
+    destruct (write_all wr w b) as [w1| | |] eqn:E; try congruence; try (split; discriminate).
+    apply (IH w1 (a ++ b)); [eapply write_all_ok; eauto|]. rewrite app_length. lia.
+  Qed.
 End WriteAllFacts.
 
 (* write_all never hands an empty buffer to the writer: stated for the sink's counter *)
@@ -155,19 +191,18 @@ Lemma write_all_sink fuel : forall s buf, (length buf <= fuel)%nat -> s_room s =
 Proof.
   induction fuel as [|f IH]; intros s buf Hf Hr.
   - destruct buf; [|cbn in Hf; lia]. exists s. cbn. rewrite app_nil_r. auto.
-  - destruct buf as [|x r] eqn:Eb; [exists s; cbn; rewrite app_nil_r; auto|].
-    rewrite <- Eb in *. assert (Hne : buf <> []) by (subst; discriminate).
-    cbn [write_all_fuel]. rewrite Eb at 1. rewrite <- Eb.
+  - destruct (nil_or_not buf) as [->|Hne]; [exists s; cbn; rewrite app_nil_r; auto|].
+    rewrite write_all_fuel_S by exact Hne. pose proof (length_pos_ne _ Hne) as Hlp.
     destruct (sink_write s buf) as [[s1 n]| | |] eqn:Ew.
     + destruct (sink_write_spec _ _ _ _ Ew) as (Hn & Hc & Hl & Hro & Hpos & Hz).
       specialize (Hro Hr). specialize (Hpos Hr Hne).
       replace (n =? 0) with false by lia. replace (lenN buf <? n) with false by lia.
       rewrite split_at_snd.
       destruct (IH s1 (dropN n buf)) as (s' & H1 & H2 & H3 & H4 & H5); [|exact Hro|].
-      { rewrite dropN_length by lia. subst buf. cbn [length] in *. lia. }
+      { rewrite dropN_length by lia. lia. }
       exists s'. split; [exact H1|]. rewrite H2, Hc, <- app_assoc, take_drop, H4, H5, Hl, Hz.
       assert (lenN buf =? 0 = false) as ->.
-      { rewrite lenN_spec. subst buf. cbn [length]. lia. }
+      { rewrite lenN_spec. lia. }
       auto.
     + unfold sink_write in Ew. rewrite Hr in Ew. discriminate.
     + destruct (sink_write_total s buf); congruence.
@@ -181,7 +216,6 @@ Proof. unfold hfed, hupdate. apply concat_rev'_cons. Qed.
 Section HashWriteFacts.
   Context {W : Type}.
   Variable wr : W -> bytes -> outcome (W * N) err.
-  Variable wflush : W -> outcome W err.
 
   (* one write call: exactly the accepted prefix is hashed, whatever the inner writer does *)
   Lemma hwrite_spec h buf h' n : hwrite wr h buf = Ok (h', n) ->
@@ -203,56 +237,35 @@ Section HashWriteFacts.
     split; [exact Hn|]. rewrite Hf, Ha. reflexivity.
   Qed.
 
-  Lemma hflush_spec h h' : hflush wflush h = Ok h' -> h_hash h' = h_hash h.
+  Lemma hflush_spec (wflush : W -> outcome W err) h h' : hflush wflush h = Ok h' -> h_hash h' = h_hash h.
   Proof.
     unfold hflush, omap, obind. destruct (wflush (h_inner h)); try discriminate.
     intros H. apply Ok_inj in H. subst. reflexivity.
   Qed.
 
   (* a whole session: any list of buffers, each written with write_all *)
-  Fixpoint hwrite_all_list (h : hwriter) (ws : list bytes) : outcome hwriter err :=
-    match ws with
-    | [] => Ok h
-    | w :: r => match write_all (hwrite wr) h w with
-                | Ok h' => hwrite_all_list h' r
-                | Err e => Err e | Panic => Panic | OutOfFuel => OutOfFuel
-                end
-    end.
-  Lemma hwrite_all_list_spec ws : forall h h', hwrite_all_list h ws = Ok h' ->
+  Lemma hwrite_all_list_spec ws : forall h h', write_all_list (hwrite wr) h ws = Ok h' ->
     hfed (h_hash h') = hfed (h_hash h) ++ concat ws.
   Proof.
-    induction ws as [|w r IH]; intros h h' H; cbn [hwrite_all_list concat] in *.
+    induction ws as [|w r IH]; intros h h' H; cbn [write_all_list concat] in *.
     - apply Ok_inj in H. subst. rewrite app_nil_r. reflexivity.
     - destruct (write_all (hwrite wr) h w) as [h1| | |] eqn:E; try discriminate.
       rewrite (IH _ _ H), (hwrite_all _ _ _ E), app_assoc. reflexivity.
   Qed.
 
   (* single write calls: the returned counts say exactly what was hashed *)
-  Fixpoint hwrite_list (h : hwriter) (ws : list bytes) (acc : list N) : outcome (hwriter * list N) err :=
-    match ws with
-    | [] => Ok (h, rev acc)
-    | w :: r => match hwrite wr h w with
-                | Ok (h', n) => hwrite_list h' r (n :: acc)
-                | Err e => Err e | Panic => Panic | OutOfFuel => OutOfFuel
-                end
-    end.
-  Fixpoint accepted (ws : list bytes) (ns : list N) : bytes :=
-    match ws, ns with
-    | w :: r, n :: m => takeN n w ++ accepted r m
-    | _, _ => []
-    end.
-  Lemma hwrite_list_spec ws : forall h acc h' ns, hwrite_list h ws acc = Ok (h', ns) ->
-    exists ns', ns = rev acc ++ ns' /\ length ns' = length ws /\
-      Forall2 (fun w n => n <= lenN w) ws ns' /\
-      hfed (h_hash h') = hfed (h_hash h) ++ accepted ws ns'.
+  Lemma hwrite_list_spec ws : forall h h' ns, write_list (hwrite wr) h ws = Ok (h', ns) ->
+    Forall2 (fun w n => n <= lenN w) ws ns /\
+    hfed (h_hash h') = hfed (h_hash h) ++ accepted ws ns.
   Proof.
-    induction ws as [|w r IH]; intros h acc h' ns H; cbn [hwrite_list] in H.
-    - apply Ok_inj in H. injection H as <- <-. exists []. rewrite !app_nil_r. repeat split; auto.
+    induction ws as [|w r IH]; intros h h' ns H; cbn [write_list] in H.
+    - apply Ok_inj in H. injection H as <- <-. cbn [accepted]. rewrite app_nil_r. auto.
     - destruct (hwrite wr h w) as [[h1 n]| | |] eqn:E; try discriminate.
-      destruct (IH _ _ _ _ H) as (ns' & -> & Hl & Hall & Hf).
+      destruct (write_list (hwrite wr) h1 r) as [[h2 ns']| | |] eqn:E2; try discriminate.
+      apply Ok_inj in H. injection H as <- <-.
+      destruct (IH _ _ _ E2) as (Hall & Hf).
       destruct (hwrite_spec _ _ _ _ E) as (Hn & Hf1 & _).
-      exists (n :: ns'). cbn [rev length accepted]. rewrite <- app_assoc. cbn [app].
-      repeat split; auto. rewrite Hf, Hf1, app_assoc. reflexivity.
+      cbn [accepted]. split; [constructor; auto|]. rewrite Hf, Hf1, app_assoc. reflexivity.
   Qed.
 End HashWriteFacts.
 
@@ -281,13 +294,11 @@ Proof.
   unfold rd_read. destruct r as [|c rest]; intros H.
   - injection H as <- <-. right. right. auto.
   - rewrite split_at_spec in H. destruct (skipn (N.to_nat cap) c) as [|y t] eqn:Es; cbn [is_nil] in H.
-    + injection H as <- <-. right. left. exists c, rest. repeat split; auto.
-      * apply firstn_all2. destruct (Nat.le_gt_cases (length c) (N.to_nat cap)); [auto|].
-        assert (length (skipn (N.to_nat cap) c) = (length c - N.to_nat cap)%nat) by apply skipn_length.
-        rewrite Es in H0. cbn in H0. lia.
-      * rewrite lenN_spec. destruct (Nat.le_gt_cases (length c) (N.to_nat cap)); [lia|].
-        assert (length (skipn (N.to_nat cap) c) = (length c - N.to_nat cap)%nat) by apply skipn_length.
-        rewrite Es in H1. cbn in H1. lia.
+    + injection H as <- <-. right. left. exists c, rest.
+      pose proof (skipn_length (N.to_nat cap) c) as L. rewrite Es in L. cbn [length] in L.
+      repeat split; auto.
+      * apply firstn_all2. lia.
+      * rewrite lenN_spec. lia.
     + injection H as <- <-. left.
       assert (Hlt : (N.to_nat cap < length c)%nat).
       { destruct (Nat.le_gt_cases (length c) (N.to_nat cap)) as [Hle|]; [|auto].
@@ -306,7 +317,7 @@ Proof.
   intros H. destruct (rd_read_spec _ _ _ _ H) as [[-> ->]|[(c & rest & -> & -> & -> & Hl)|(-> & -> & ->)]].
   - split; [symmetry; apply take_drop|]. rewrite lenN_spec. unfold takeN. rewrite firstn_length. lia.
   - cbn [concat]. auto.
-  - cbn. split; [reflexivity|]. rewrite lenN_spec. cbn. lia.
+  - split; [reflexivity|]. rewrite lenN_spec. cbn [length]. lia.
 Qed.
 
 Lemma read_exact_spec fuel : forall r need got r' got', read_exact fuel r need got = Ok (r', got') ->
@@ -323,7 +334,7 @@ Proof.
     destruct (rd_read_stream _ _ _ _ Er) as [Hc Hl].
     destruct (IH _ _ _ _ _ H) as (x & Hx & Hlx & Hcx).
     exists (a ++ x). rewrite Hx, concat_rev'_cons, <- app_assoc. repeat split; auto.
-    + rewrite lenN_spec, app_length in *. rewrite lenN_spec in Hl, Ea. lia.
+    + repeat rewrite lenN_spec in *. rewrite app_length. lia.
     + rewrite Hc, Hcx, app_assoc. reflexivity.
 Qed.
 
@@ -341,12 +352,12 @@ Proof.
     destruct (read_exact_spec _ _ _ _ _ _ Er) as (x & Hx & Hlx & Hcx). cbn in Hx.
     destruct (IH _ _ _ _ H) as (y & Hy & Hly & Hcy).
     exists (x ++ y). rewrite Hy, hfed_update, Hx, <- app_assoc. repeat split; auto.
-    + rewrite lenN_spec, app_length in *. rewrite lenN_spec in Hlx, Hly. lia.
+    + repeat rewrite lenN_spec in *. rewrite app_length. lia.
     + rewrite Hcx. replace left with (N.min HASH_BUF left + (left - N.min HASH_BUF left)) at 1 by lia.
       rewrite takeN_add. f_equal.
       * unfold takeN. rewrite firstn_app. rewrite lenN_spec in Hlx.
         replace (N.to_nat (N.min HASH_BUF left) - length x)%nat with 0%nat by lia.
-        rewrite firstn_O, app_nil_r. apply firstn_all2. lia.
+        rewrite firstn_O, app_nil_r. symmetry. apply firstn_all2. lia.
       * rewrite Hcy. f_equal. unfold dropN. rewrite skipn_app. rewrite lenN_spec in Hlx.
         replace (N.to_nat (N.min HASH_BUF left) - length x)%nat with 0%nat by lia.
         rewrite skipn_all2 by lia. reflexivity.
